@@ -519,8 +519,7 @@ class Dispatcher(actor.RallyActor):
             if remote_ip in self.remotes:
                 del self.remotes[remote_ip]
             if not self.remotes:
-                # Notifications are no longer needed
-                self.notifyOnSystemRegistrationChanges(False)
+                # stay subscribed: a remote node that leaves while its host is still starting nodes needs to be reported as well
                 self.send_all_pending()
 
     def send_all_pending(self):
